@@ -9,6 +9,23 @@ COMMON_NOTE = ("Trusted: Lean 4 kernel (axioms at most propext, Classical.choice
                "implementation on every generated case. ")
 
 P = {
+ "C01": dict(
+  text="Lean theorems (Props/C01.lean): whenever the model of verifier.Verify / VerifyBlob accepts under a non-skip statement, the envelope parsed, its signature verified, the payload is a Notary payload whose decoded target equals the artifact (digest, size; media type for OCI and for blobs when stated), every required metadata pair is in the signed annotations, and the reported payload / returned descriptor is the signed one; integrity_not_overridable: a tampered envelope is rejected for EVERY scenario and enforcement map of the C02 model of processSignature (levels, overrides, stores, plugins); mismatch survives satisfied metadata. Correspondence: freshly signed, other-artifact, re-assembled and byte-mutated JWS/COSE envelopes x customised levels x metadata maps through the real verifier.Verify and notation.VerifyBlob.",
+  note="notation-core-go ParseEnvelope/Verify() IS the definition of 'cryptographically valid under the leaf key' here; the envelope facts (parses, integrity, payload type, json decoding of the payload) are computed by the harness calling notation-core-go / encoding/json directly (independent route, trusted).",
+  tech="Lean 4 proof (decision logic, composition with the C02 model) + model/implementation correspondence"),
+ "C08": dict(
+  text="Lean theorems (Props/C08.lean): for documents with unique scopes the selected statement is THE statement listing exactly the repository path, else THE wildcard statement, else the typed no-applicable-policy error; invariance under List.Perm of the statements; exact string matching only; blob by exact name / single global; copy_is_private over any sequence of mutations through handed-out copies, under CloneFresh obligations on the extracted clone fields. Correspondence: valid documents in all permutations x near-miss scopes x references through GetApplicableTrustPolicy, Verify/SkipVerify/VerifyBlob, with reflection-based mutation of handed-out copies.",
+  note="Validity of documents is a decidable hypothesis (WF) satisfied by construction (the harness runs the real Validate()); C09 proves it follows from validation. The extractor classifies clone fields syntactically.",
+  tech="Lean 4 proof (uniqueness, permutation invariance, heap model of clone) + regenerated clone facts + correspondence"),
+ "C15": dict(
+  text="Lean theorems (Props/C15.lean): refinement of the file-level cache to a map URL -> content for arbitrary operation sequences (induction): get_after_set, expired_is_miss (base and delta independently, exact boundary), never_stored_is_miss, last_write_wins, distinct_urls_isolated (under digest injectivity on the URLs in use), malformed_is_error; confinement proved concretely: the file touched is root/<64 lowercase hex>, hex injective, never a temp name. Facts pin fileName = hex(sha256), the Get/Set paths, JSON tags and the checkExpiry comparison. Correspondence: op sequences over near-identical / traversal-shaped / very long URLs, CRLs with next-update before/after now, 42 corruption kinds, sentinel tree around the root.",
+  note="SHA-256 is a parameter (the harness sends the digest with each URL; collision freedom on the URLs in use is checked per case); JSON/base64 round trip is the codec hypothesis; the instant now = nextUpdate is covered by theorems only (no clock seam).",
+  tech="Lean 4 proof (refinement to a partial map by induction, concrete hex lemma) + regenerated facts + correspondence"),
+ "C16": dict(
+  text="Lean theorems (Props/C16.lean): Go's lexical Clean/Join on character lists; for EVERY string and every root a validated name is a single path component and every path touched is exactly root/<name> or root/<name>/notation-<name>; rejected names give an error and an empty effect log through get / uninstall / install / verify; guard_is_necessary (without validation the path functions escape, by decide); listing = real sub-directories. Guard-presence facts make the model drop a guard when the code drops it. Correspondence: 300+ traversal shapes x roots of several depths x Get/Uninstall/Install/List and end-to-end verifier.Verify with a real CLIManager, sentinel executables and full tree snapshots.",
+  note="OS path resolution and Go's filepath are trusted; mode bits are not observed (one minor observation about setExecutable-before-validation is recorded in corpus/C16/README.md).",
+  tech="Lean 4 proof (path algebra on character lists, all strings) + regenerated guard facts + correspondence with sentinels"),
+
  "C02": dict(
   text="Lean theorems (Props/C02.lean): for every scenario of processSignature and EVERY enforcement map, the model accepts iff no validation with action enforce failed and the plugin conditions hold (closed formula acceptSpec), every result carries the level's action, skipped revocation is not performed natively or by plugin, a declared capability replaces the native check, acceptance is monotone under weakening (accept_mono), GetVerificationLevel always yields integrity=enforce for non-skip levels (any override list). The known finding F-C02b is carved out as an explicit hypothesis with a decide-proved counterexample. Correspondence: stratified scenarios through the real verifier.Verify with instrumented trust store / revocation validator / plugin manager.",
   note="Truth of the individual validations is an input of the scenario (their correctness is C03-C06). Non-critical extended attributes and malformed plugin attributes are compared model-vs-implementation but excluded from the exactness clause (outside the property's quantifier). Known finding F-C02b printed as KNOWN-FINDING.",
